@@ -21,7 +21,12 @@ func ruleCIDRouting(c *Ctx, r *Report) {
 	tL := "internal/net/udp.listener"
 	var addrLookups, idLookups []*ssa.Lookup
 	var router *ssa.Call
-	for _, b := range fn.Blocks {
+	// the routing may sit in a helper of the listener that getConn calls under its lock
+	var unitBlocks []*ssa.BasicBlock
+	for _, u := range c.unitFuncs(fn) {
+		unitBlocks = append(unitBlocks, u.Blocks...)
+	}
+	for _, b := range unitBlocks {
 		for _, in := range b.Instrs {
 			switch x := in.(type) {
 			case *ssa.Lookup:
@@ -55,7 +60,7 @@ func ruleCIDRouting(c *Ctx, r *Report) {
 	if found != nil {
 		as = append(as, atomAssume{mValue(found), vBool(true)})
 	}
-	w := (&Walk{Fn: fn, Assume: assumeAll(as...)}).FromEntry()
+	w := (&Walk{Fn: fn, Follow: followSamePkg(fn), Assume: assumeAll(as...)}).FromEntry()
 	bad := false
 	for _, al := range addrLookups {
 		if w.Reached[al] {
@@ -187,13 +192,17 @@ func ruleRRCManager(c *Ctx, r *Report) {
 	if fn := c.need(r, rule, "(*internal/rrc.Manager).HandleResponse"); fn != nil {
 		r.Sites += len(fn.Blocks)
 		trueReach := func(as ...atomAssume) bool {
-			w := (&Walk{Fn: fn, Assume: assumeAll(as...)}).FromEntry()
+			w := (&Walk{Fn: fn, Follow: followSamePkg(fn), Assume: assumeAll(as...)}).FromEntry()
 			for _, ro := range w.Returns {
 				if ro.Vals[0] != vBool(false) {
 					return true
 				}
 			}
 			return false
+		}
+		isCookieEql := func(v ssa.Value) bool {
+			bo, ok := v.(*ssa.BinOp)
+			return ok && bo.Op == token.EQL && (strings.Contains(shapeOf(bo.X, 0), "cookie") || strings.Contains(shapeOf(bo.Y, 0), "cookie"))
 		}
 		isNow := func(v ssa.Value) bool {
 			call, ok := v.(*ssa.Call)
@@ -204,9 +213,9 @@ func ruleRRCManager(c *Ctx, r *Report) {
 			return ok && bo.Op == token.NEQ && (strings.Contains(shapeOf(bo.X, 0), "cookie") || strings.Contains(shapeOf(bo.Y, 0), "cookie"))
 		}
 		r.Check(!trueReach(atomAssume{mLoad(tRRCPath, "challengePending"), vBool(false)}), rule, short(fn)+":pending", c.pos(fn.Pos()), "no challenge pending: rejected", "a path response is accepted although no challenge is pending for that address")
-		r.Check(!trueReach(atomAssume{isCookieNeq, vBool(true)}), rule, short(fn)+":cookie", c.pos(fn.Pos()), "cookie differs: rejected", "a path response with a wrong cookie is accepted")
+		r.Check(!trueReach(atomAssume{isCookieNeq, vBool(true)}, atomAssume{isCookieEql, vBool(false)}), rule, short(fn)+":cookie", c.pos(fn.Pos()), "cookie differs: rejected", "a path response with a wrong cookie is accepted")
 		r.Check(!trueReach(atomAssume{isNow, vBool(false)}), rule, short(fn)+":timely", c.pos(fn.Pos()), "expired: rejected", "a path response arriving after the validation timeout is accepted")
-		r.Check(trueReach(atomAssume{mLoad(tRRCPath, "challengePending"), vBool(true)}, atomAssume{isCookieNeq, vBool(false)}, atomAssume{isNow, vBool(true)}), rule, short(fn)+":accepts", c.pos(fn.Pos()), "pending, matching, timely: accepted", "a correct timely response is never accepted")
+		r.Check(trueReach(atomAssume{mLoad(tRRCPath, "challengePending"), vBool(true)}, atomAssume{isCookieNeq, vBool(false)}, atomAssume{isCookieEql, vBool(true)}, atomAssume{isNow, vBool(true)}), rule, short(fn)+":accepts", c.pos(fn.Pos()), "pending, matching, timely: accepted", "a correct timely response is never accepted")
 	}
 	// the deadline of a pending challenge is not extended by further traffic
 	const rule2 = "rrc-challenge-deadline"
@@ -235,6 +244,22 @@ func ruleRRCManager(c *Ctx, r *Report) {
 		case strings.HasSuffix(key, ").recordReceived"):
 			r.Check(!pendingReach(), rule2, key, c.ipos(s.Call), "received traffic does not extend the deadline of an outstanding challenge", "every record from a candidate address extends the deadline of its outstanding challenge: a response is accepted arbitrarily late")
 		default:
+			// a helper that sets the pending flag and re-arms, called only from the functions that
+			// issue or cancel a challenge
+			onlyFromKnown := false
+			if sites, complete := c.staticCallers(fn); complete && len(sites) > 0 {
+				onlyFromKnown = true
+				for _, cs := range sites {
+					k := short(cs.Fn)
+					if !(strings.HasSuffix(k, ").Start") || strings.HasSuffix(k, ").Cancel")) {
+						onlyFromKnown = false
+					}
+				}
+			}
+			if onlyFromKnown {
+				r.Check(!pendingReach(), rule2, key, c.ipos(s.Call), "re-arms the deadline together with a change of the challenge state (helper of Start / Cancel)", "the deadline of an outstanding challenge is pushed back by an event that does not change the challenge: a response is accepted arbitrarily late")
+				break
+			}
 			r.Bad(rule2, key, c.ipos(s.Call), "the path deadline is re-armed from an unexpected place")
 		}
 	}
@@ -284,6 +309,87 @@ func ruleRRCManager(c *Ctx, r *Report) {
 				w := (&Walk{Fn: fn, Assume: assumeAll(atomAssume{mValue(cmp), vBool(true)})}).FromEntry()
 				if w.Reached[st.Instr] {
 					ok = false
+				}
+			}
+			if len(cmps) != 2 {
+				// the room that is left may be computed by a helper of the path: it answers 0 once
+				// sent >= limit and limit - sent otherwise, and the debit is out of reach when the
+				// datagram is larger than that
+				ok = false
+				for _, bc := range findCalls(fn, func(string) bool { return true }) {
+					h := bc.Call.StaticCallee()
+					if h == nil || h.Pkg != fn.Pkg || len(h.Blocks) == 0 || h.Signature.Results().Len() != 1 {
+						continue
+					}
+					okHelper, nSub := true, 0
+					for _, b := range h.Blocks {
+						ret, isRet := b.Instrs[len(b.Instrs)-1].(*ssa.Return)
+						if !isRet || b == h.Recover {
+							continue
+						}
+						rv := unspill(ret.Results[0])
+						if k, isK := constInt(rv); isK && k == 0 {
+							continue
+						}
+						sub, isSub := rv.(*ssa.BinOp)
+						if !isSub || sub.Op != token.SUB || !isFieldLoad(sub.Y, tRRCPath, "sentBytes") {
+							okHelper = false
+							continue
+						}
+						nSub++
+						// not reached once sent >= limit
+						limit := sub.X
+						wh := (&Walk{Fn: h, Assume: func(v ssa.Value) (Val, bool) {
+							bo, isBo := v.(*ssa.BinOp)
+							if !isBo {
+								return unknown, false
+							}
+							sentX, sentY := isFieldLoad(bo.X, tRRCPath, "sentBytes"), isFieldLoad(bo.Y, tRRCPath, "sentBytes")
+							switch {
+							case sentX && bo.Y == limit && (bo.Op == token.GEQ):
+								return vBool(true), true
+							case sentX && bo.Y == limit && (bo.Op == token.LSS):
+								return vBool(false), true
+							case sentY && bo.X == limit && (bo.Op == token.LEQ):
+								return vBool(true), true
+							case sentY && bo.X == limit && (bo.Op == token.GTR):
+								return vBool(false), true
+							}
+							return unknown, false
+						}}).FromEntry()
+						if wh.Reached[ret] {
+							okHelper = false
+						}
+					}
+					if !okHelper || nSub == 0 {
+						continue
+					}
+					// in the caller: wire > room -> no debit
+					seen := false
+					wr := (&Walk{Fn: fn, Assume: func(v ssa.Value) (Val, bool) {
+						bo, isBo := v.(*ssa.BinOp)
+						if !isBo {
+							return unknown, false
+						}
+						switch {
+						case bo.Y == ssa.Value(bc) && bo.Op == token.GTR:
+							seen = true
+							return vBool(true), true
+						case bo.Y == ssa.Value(bc) && bo.Op == token.LEQ:
+							seen = true
+							return vBool(false), true
+						case bo.X == ssa.Value(bc) && bo.Op == token.LSS:
+							seen = true
+							return vBool(true), true
+						case bo.X == ssa.Value(bc) && bo.Op == token.GEQ:
+							seen = true
+							return vBool(false), true
+						}
+						return unknown, false
+					}}).FromEntry()
+					if seen && !wr.Reached[st.Instr] {
+						ok = true
+					}
 				}
 			}
 			r.Check(ok, rule3, short(fn)+":within-limit", c.ipos(st.Instr), "the send budget is debited only when sent + this datagram stays within the limit", "the amplification budget is debited (and the datagram allowed) although the limit is exceeded")
